@@ -289,6 +289,10 @@ impl Sm2PrivateKey {
             true => 33,
             false => 65,
         };
+        // C1 || C3 (32 bytes) || C2 (at least one byte)
+        if ciphertext.len() <= c1_end_index + 32 {
+            return Err(Sm2Error::InvalidFieldLen);
+        }
         let c1_bytes = &ciphertext[0..c1_end_index];
         let len = ciphertext.len();
         let c2_bytes = match model {
